@@ -1105,7 +1105,13 @@ func Retract(vm *VM, t Term, k Cont, env *Env) *Promise {
 	ks := make([]func(context.Context) *Promise, len(u.clauses))
 	for i, c := range u.clauses {
 		i := i
-		raw := rulify(c.raw, env)
+		// Unify with a renamed copy like clause/2 does. Otherwise, we'd bind the variables of the stored clause,
+		// which it may share with the term it was asserted from.
+		cp, err := renamedCopy(c.raw, nil, env)
+		if err != nil {
+			return Error(err)
+		}
+		raw := rulify(cp, env)
 		ks[i] = func(_ context.Context) *Promise {
 			return Unify(vm, t, raw, func(env *Env) *Promise {
 				j := i - deleted
